@@ -109,7 +109,8 @@ fn case1<T: Elem>(case: u64, spline: bool, args: &Args, ev: &mut Ev, log: &mut E
     } else {
         let o = LinearOpts {
             max_n: 12,
-            max_lane_rank: 5,
+            // every second Linear case: up to six trailing axes (data of seven axes, IxDyn only)
+            max_lane_rank: if case % 6 == 0 { 6 } else { 5 },
             allow_zero_lanes: true,
             ..Default::default()
         };
